@@ -29,6 +29,8 @@ type Built struct {
 	Problem string
 	Modes   [][]uint32
 	DFAs    map[string]*mode.Mode
+	// ModeCountProblem: number of emitted mode tables differs from the number of declared modes.
+	ModeCountProblem string
 }
 
 const userGo = `package carrier
@@ -138,7 +140,8 @@ func BuildText(ws *pipe.Workspace, loxFiles map[string]string, s *lexref.Spec) *
 		}
 	}
 	if nm != len(s.Modes) {
-		b.Status, b.Problem = Broken, fmt.Sprintf("%d mode tables emitted, specification has %d modes", nm, len(s.Modes))
+		// reported by the callers as a table-level (C10) violation; exploration goes on
+		b.ModeCountProblem = fmt.Sprintf("%d mode tables emitted, the specification declares %d modes", nm, len(s.Modes))
 	}
 	return b
 }
